@@ -221,6 +221,20 @@ def run(rep, tier, root=None):
                 isinstance(qa.args[0], Rat) and isinstance(qa.args[0].single_atom(), Sym)
         rep.check(good, "E1m.moment-conserved", "%s: %s[i]*%s[i]^(5/3) == (p*q^(5/3))[slab].sum()" % (f.fq, cn2_store[0], name),
                   "slab %s does not conserve the 5/3 moment: strength*value^(5/3) = %s" % (name, nf(lhs, 200)), f.where())
+    # a slab may be empty (irregular heights) or hold only zero strengths: the effective height / wind divides by the slab's
+    # strength, and 0 / 0 is nan - the output moments are then nan although the strengths (sum of nothing = 0) are right
+    for name, s in sorted(stores.items()):
+        if name == cn2_store[0] or not isinstance(s[3], Rat):
+            continue
+        negs = [a for m_, c_ in list(s[3].num.items()) + list(s[3].den.items()) for a, e_ in m_
+                if e_ < 0 and isinstance(a, Fn) and a.name == "sum" and same_value(Rat.atom(a), cn2v)]
+        den_has = any(same_value(Rat.atom(a), cn2v) for m_ in s[3].den for a, e_ in m_ if isinstance(a, Fn))
+        guarded = any(isinstance(a, Fn) and a.name in ("where3", "maximum", "clip", "nan_to_num") for a in s[3].atoms())
+        role = "effective height" if s[3].depends_on(Sym("h")) else "effective wind speed" if s[3].depends_on(Sym("w")) else name
+        rep.check(not ((negs or den_has) and not guarded), "E1m.empty-slab", "%s: %s of a slab without turbulence is defined" % (f.fq, role),
+                  "%s[i] divides by the slab strength p[slab].sum(): for a slab that contains no layer (irregular heights, e.g. "
+                  "h = [0, 100, 200, 10000], L = 3) or only zero strengths it is 0/0 = nan, so the 5/3 moment of the output is nan "
+                  "(GCTM, which starts from this guess, returns nan heights as well)" % name, f.where())
     rep.sample({"function": f.fq, "edges": nf(edges, 200), "edge_count": how, "mask": nf(mask, 200)})
 
     # GCTM starts from equivalent_layers with the same (h, p, L)
